@@ -394,7 +394,51 @@ fn parameter_list_layouts() -> Vec<Case> {
     v
 }
 
+/// comments at the positions where the grammar records them for the formatter (after list items and
+/// record entries, on lines of their own inside brackets and do-blocks, at the end of a do-block
+/// statement, after a statement; the pinned grammar admits none after `return`'s expression): the program that is evaluated is the
+/// one without the comments
+fn comment_position_layouts() -> Vec<Case> {
+    let mut v = Vec::new();
+    let pairs: &[(&str, &[&str])] = &[
+        ("f = x => do {\n  y = x * 2\n  return y\n}", &[
+            "f = x => do {\n  y = x * 2 // double it\n  return y\n}",
+            "f = x => do {\n  y = x * 2  //\n  return y\n}",
+            "f = x => do {\n  // first\n  y = x * 2\n  return y\n}",
+            "f = x => do {\n  y = x * 2\n  // before return\n  return y\n}",
+            "f = x => do { // opening\n  y = x * 2 // a\n  // b\n  return y\n}",
+            "f = x => do {\n  y = x * 2 // a // b\n\n  return y\n}",
+        ]),
+        ("g = do {\n  a = 1\n  b = [a, 2]\n  return {a, b}\n}", &[
+            "g = do {\n  a = 1 // one\n  b = [a, 2] // two\n  return {a, b}\n}",
+            "g = do {\n  a = 1 // one\n  b = [\n    a, // item\n    2 // last\n  ] // two\n  return {a, b}\n}",
+        ]),
+        ("l = [1, 2, 3]", &[
+            "l = [1, // one\n 2, 3]",
+            "l = [\n  1, // one\n  2, // two\n  3 // three\n]",
+            "l = [\n  // lead\n  1,\n  // mid\n  2,\n  3\n  // tail\n]",
+            "l = [1, 2, 3] // after",
+        ]),
+        ("r = {a: 1, \"b c\": [2], ...q}", &[
+            "r = {\n  a: 1, // one\n  \"b c\": [2], // two\n  ...q // spread\n}",
+            "r = {\n  // lead\n  a: 1,\n  \"b c\": [\n    2 // inner\n  ],\n  ...q,\n  // tail\n}",
+            "r = {a: 1, \"b c\": [2], ...q} // after",
+        ]),
+        ("h = (a, b) => [a, do {\n  c = b\n  return c\n}]", &[
+            "h = (a, b) => [a, // first\n do {\n  c = b // copy\n  return c\n}]",
+        ]),
+        ("output k = [1, 2]", &["output k = [\n  1, // one\n  2\n] // done"]),
+    ];
+    for (canonical, variants) in pairs {
+        for varied in variants.iter() {
+            v.push(Case::Text { canonical: canonical.to_string(), varied: varied.to_string() });
+        }
+    }
+    v
+}
+
 pub fn run(ctx: &mut Ctx) {
+    ctx.run_enum(&Parsing, comment_position_layouts().into_iter(), false);
     ctx.run_enum(&Parsing, lambda_pipeline_layouts().into_iter(), false);
     ctx.run_enum(&Parsing, parameter_list_layouts().into_iter(), false);
     ctx.run_enum(&Parsing, enumerated_trees().into_iter().map(Case::Tree), true);
